@@ -241,6 +241,17 @@ def run(ctx):
                     check_case(ctx, dspec, {"a": "run:a"}, None, runner, "directed-bound-consumed-outside-selection")
                     check_case(ctx, {**dspec, "select": None}, {"a": "run:a"}, list(sel), runner, "directed-bound-consumed-outside-runtime-selection")
         ctx.case({"directed": "bound-consumed-outside-selection"}, True)
+        # directed: a nested group whose wrapper output is renamed several times and ends on a name it had before
+        # (a->b->c->b, a->b->a->b): the value still arrives under the final name and feeds the outside consumer
+        for hist in ([{"m": "b"}, {"b": "c"}, {"c": "b"}], [{"m": "b"}, {"b": "m"}, {"m": "b"}], [{"m": "b"}, {"b": "c"}, {"c": "d"}, {"d": "c"}]):
+            final = ref.forward_map(["m"], hist)["m"]
+            dspec = {"name": "g", "nodes": [
+                {"k": "sub", "name": "grp", "prog": {"name": "grp", "nodes": [{"k": "fn", "name": "mk", "params": [{"n": "a"}], "outs": ["m"]}], "bind": {}}, "rename_out": [dict(b) for b in hist]},
+                {"k": "fn", "name": "use", "params": [{"n": final}], "outs": ["p"]},
+            ], "bind": {}}
+            for runner in ("sync", "async"):
+                check_case(ctx, dspec, {"a": "run:a"}, None, runner, "directed-nested-output-renamed-back")
+        ctx.case({"directed": "nested-output-renamed-back"}, True)
     for i in range(n):
         rng = ctx.rng
         if i % 8 == 7:
